@@ -111,7 +111,7 @@ def table_check(case):
             if code & 1:
                 spikes.append((t, 7, 3))
             if code & 2:
-                spikes.append((t, 9, 11))
+                spikes.append((t, 9, 3 if a % 2 else 11))          # the same instant in another unit, on another or on the SAME peak channel
         if not spikes:
             continue
         spikes.sort()
@@ -243,7 +243,8 @@ def _spike_train(ns, chunks, nsites, variant):
     for j, t in enumerate(sorted(times)):
         spikes.append((t, j % 3, (j * 7 + variant) % nsites))
         if j % 4 == 0:
-            spikes.append((t, 3 + (j % 2), (j * 5 + 1) % nsites))           # same time in another unit
+            # same time in another unit, every other time on the same peak channel too
+            spikes.append((t, 3 + (j % 2), (j * 7 + variant) % nsites if j % 8 == 0 else (j * 5 + 1) % nsites))
     spikes.sort()
     dt = (np.int64, np.uint64, np.int32, np.uint32)[variant % 4]          # spike times as sorters store them (Kilosort: uint64)
     return (np.array([s[0] for s in spikes]).astype(dt), np.array([s[1] for s in spikes]), np.array([s[2] for s in spikes]))
@@ -512,6 +513,6 @@ CHECK = {
         Clause("table", "spike selection: min(max_wf, #valid) distinct valid spikes per unit", cases=table_cases, check=table_check),
         Clause("file", "extract_wfs_cbin: rows = source, files agree, chunk-size and task-order independence, loader", cases=file_cases, check=file_check),
         Clause("cbin-input", "compressed input (decompressed next to the file or to a scratch directory): same output files", cases=cbin_cases, check=cbin_check),
-        Clause("joblib", "free-running joblib conformance point", cases=joblib_cases, check=joblib_check),
+        Clause("joblib", "free-running joblib conformance point", cases=joblib_cases, check=joblib_check, serial=True),
     ],
 }
